@@ -555,7 +555,27 @@ def arg_str(n):
 def build_suites(forest):
     from lemoncheesecake.suite.core import Suite, Test, InjectedFixture
 
-    def build_suite(s):
+    import zlib
+    counts = {}
+    for tp, _, _, _, _ in flatten_tests(forest):
+        counts[path_str(tp)] = counts.get(path_str(tp), 0) + 1
+
+    def as_dependency(dep, own):
+        """A dependency on an existing test is declared by its path or -- one time in three -- by a PREDICATE that designates the
+        same test (half of these predicates are also true of the depending test itself: a test is never its own dependency)."""
+        if counts.get(dep, 0) != 1 or dep == own:
+            return dep
+        h = zlib.crc32(("%s<-%s" % (dep, own)).encode()) % 6
+        if h == 0:
+            PREDICATE_DEPS[0] += 1
+            return lambda t, dep=dep: t.path == dep
+        if h == 1:
+            PREDICATE_DEPS[0] += 1
+            return lambda t, both=(dep, own): t.path in both
+        return dep
+
+    def build_suite(s, prefix=()):
+        spath = tuple(prefix) + (s["name"],)
         attrs = {"inj_%03d" % i: InjectedFixture(fx_str(n)) for i, n in enumerate(s["injected"])}
         cls = type("S%d" % s["name"], (object,), attrs)
         suite = Suite(cls(), "s%d" % s["name"], "suite %d" % s["name"])
@@ -579,15 +599,18 @@ def build_suites(forest):
                 callbacks[key] = _mkfunc("cb", [arg_str(a) for a in t["args"]])
             test = Test("t%d" % t["name"], "test %d" % t["name"], callbacks[key])
             test.disabled = t["disabled"]
-            test.dependencies = [path_str(d) for d in t["deps"]]
+            test.dependencies = [as_dependency(path_str(d), path_str(spath + (t["name"],))) for d in t["deps"]]
             test.parameters = {arg_str(a): 0 for a in t["params"]}
             test.tags = ["g%d" % x for x in t["tags"]]
             test.properties = {"p%d" % k: "v%d" % v for k, v in t["props"]}
             suite.add_test(test)
         for sub in s["subs"]:
-            suite.add_suite(build_suite(sub))
+            suite.add_suite(build_suite(sub, spath))
         return suite
     return [build_suite(s) for s in forest]
+
+
+PREDICATE_DEPS = [0]       # dependencies declared by a predicate so far (evidence counter)
 
 
 def build_fixtures(fixtures, generator_ratio=0):
